@@ -190,7 +190,9 @@ static Case gen_c08()
     len = k2 < 35 ? 8192 - 64 + g::range(-70, 71) : k2 < 55 ? 65536 - 64 + g::range(-70, 71) : k2 < 95 ? g::range(1025, 200001) : (1 << 21) - 64 + g::range(-2, 3);
   }
   c.seti("len", len);
-  c.seti("pos", g::coin(40) ? 0 : g::range(0, 65));
+  // start position of the hashed range ("from the current file position to the end"): mostly small, sometimes
+  // beyond one and two bytes' worth (the tool itself only ever starts at 48)
+  c.seti("pos", g::coin(40) ? 0 : g::coin(75) ? g::range(0, 65) : g::coin(50) ? g::oneof<long>({255, 256, 257, 304, 511, 512, 1000, 65535, 65536, 65584}) : g::range(65, 70000));
   int refill = (int)g::oneof<long>({1, 2, 3, 5, 8, 16});
   c.seti("refill", std::min(refill, wapi::refill_capacity()));
   c.set("pseed", std::to_string(g::u64()));
@@ -199,6 +201,7 @@ static Case gen_c08()
   c.seti("allbits", g::coin(10) && !longmsg ? 1 : 0);
   if (c.get("kind") == "write")
   {
+    c.seti("pos", std::min<long>(c.geti("pos"), 64)); // writeFileHmac takes its two marks as bytes
     c.seti("hash_mark", g::coin(50) ? 48 : g::range(0, 100));
     c.seti("write_mark", g::coin(50) ? 10 : g::range(0, 60));
   }
